@@ -15,6 +15,12 @@ pub fn deadline_exceeded(deadline: Option<Instant>) -> bool {
     #[allow(unreachable_code)]
     match deadline {
         Some(deadline) => {
+            #[cfg(similar_verif)]
+            {
+                if let Some(answer) = verif_hooks::probe() {
+                    return answer;
+                }
+            }
             #[cfg(all(target_arch = "wasm32", not(feature = "wasm32_web_time")))]
             {
                 return false;
@@ -34,4 +40,60 @@ pub fn duration_to_deadline(add: Duration) -> Option<Instant> {
         return None;
     }
     Instant::now().checked_add(add)
+}
+
+/// Verification hooks (only with `--cfg similar_verif`): a thread-local virtual
+/// clock that answers [`deadline_exceeded`] from a fuel counter instead of the
+/// wall clock, and counts the probes.
+#[cfg(similar_verif)]
+#[allow(missing_docs)]
+pub mod verif_hooks {
+    use std::cell::Cell;
+
+    thread_local! {
+        static FUEL: Cell<Option<u64>> = const { Cell::new(None) };
+        static PROBES: Cell<u64> = const { Cell::new(0) };
+        static REPAIR_SWAP: Cell<bool> = const { Cell::new(false) };
+    }
+
+    /// Installs the virtual clock: the next `fuel` probes answer "not exceeded",
+    /// all later ones "exceeded".  Resets the probe counter.
+    pub fn install_clock(fuel: u64) {
+        FUEL.with(|f| f.set(Some(fuel)));
+        PROBES.with(|p| p.set(0));
+    }
+
+    /// Removes the virtual clock (the wall clock is used again).
+    pub fn clear_clock() {
+        FUEL.with(|f| f.set(None));
+    }
+
+    /// Number of probes answered by the virtual clock since it was installed.
+    pub fn probes() -> u64 {
+        PROBES.with(|p| p.get())
+    }
+
+    pub(crate) fn probe() -> Option<bool> {
+        FUEL.with(|f| match f.get() {
+            None => None,
+            Some(fuel) => {
+                PROBES.with(|p| p.set(p.get() + 1));
+                if fuel == 0 {
+                    Some(true)
+                } else {
+                    f.set(Some(fuel - 1));
+                    Some(false)
+                }
+            }
+        })
+    }
+
+    /// Switches the repair of carried indices at the compaction swap site.
+    pub fn set_repair_swap(on: bool) {
+        REPAIR_SWAP.with(|r| r.set(on));
+    }
+
+    pub(crate) fn repair_swap() -> bool {
+        REPAIR_SWAP.with(|r| r.get())
+    }
 }
